@@ -12,6 +12,27 @@ satisfies it (checked on every generated script by the driver, and proved for th
 The character-level half combines C14 (each opaque region at a scan position is one token of a value-blind, non-Whitespace type) with the
 partition: `region_in_one_statement`, `semicolon_in_region_does_not_split` below.
 -/
+/-!
+## Hypotheses audit (C05)
+
+Token level (`plain_script_split…`): `SUnit.ok` = quiet body (no `;` at level ≤ 0, no `GO`, no IndexError), level ending ≤ 0, head not of an
+EOS type.  Needed: `select ( case when a then b end ; c )` is cut at the inner `;` (`paren_end_counterexample`, KF-C05-1); a body starting
+with a blank or `-- comment` is attached to the previous statement by the real splitter.
+Character level:
+* `Region pre post region ty`: the hypotheses of the C14 region theorems (audited in SqlProps/C14.lean).
+* `ScanBoundary … pre.length` (`region_in_one_statement`): a region opener inside another token is not lexed as a region.  `'/*;*/'` is one string.
+* `before` — the tokens before the region are the same in both texts (`region_body_irrelevant`, `semicolon_in_region_does_not_split`): NEEDED.
+  `AT TIME ZONE ''` lexes as `AT`, `TIME`, `ZONE`, `''` but `AT TIME ZONE 'x'` as ONE `Keyword.TZCast` (the earlier rule reads into the
+  region); likewise a stray `"` before `'a"b'` (`"'a"` becomes a `String.Symbol`).  Vacuous for a region at the start of the text
+  (`semicolon_in_leading_region_does_not_split`).
+* `region.getLast? = region'.getLast?`: technical.  The next token can look one character back (`(?<![\w"$])`, `(?<!\w)`, `(?<![\w\])])`,
+  `(?<=\.)`, `\b`); the proof transports derivations between texts that agree from that character on.  It holds automatically for two
+  regions of the same kind, except two line comments ended by different line breaks or a backtick versus an acute-accent name; in those
+  cases the characters (`␍`, `⏎`, `` ` ``, `´`) are all outside every look-behind class, so the hypothesis is presumably not necessary there —
+  it is what the proof uses, no counterexample exists.
+No input restriction: `split_value_irrelevant` (only `SameSplitView`), `region_types`.
+-/
+
 namespace Sql.C05
 
 /-- table obligation: the generated `EOS_TTYPE` types are neither keyword types nor Punctuation -/
